@@ -1,7 +1,7 @@
 (* NV_C03 -- non-vacuity audit of Props/C03.v.
    Every theorem of Props/C03.v that has premises is instantiated with a concrete, non-trivial witness; the
-   Props theorem is applied to it and the concrete outcome is computed next to it.  Lemmas named problem_*
-   record findings (see the final report). *)
+   Props theorem is applied to it and the concrete outcome is computed next to it.  Lemmas named remark_*
+   record facts behind a restatement made after the audit. *)
 From Coq Require Import ZArith List String Bool Lia PeanoNat.
 From GV Require Import GoSpec.GoPrec Model.Pratt Model.PrattInst Model.Loader Model.Lookup Model.IntMap
   Model.PeepTypes Model.VM Model.Peephole Model.Host Model.Cursor Gen.Tables_gen
@@ -287,13 +287,10 @@ Lemma nv_c03_hang :
   entry_model unq_go (ELoad false "main" all_on (mkLoadAdv (TopRet stmts1) files1 (CRet keys5 code2) RHang 0)) = Hang SRun /\
   entry_model unq_go (ECall 1 FnHang) = Hang SRun /\ entry_model unq_go (EFunc 1 FnHang) = Hang SRun /\
   entry_model unq_go (EEval false all_on (eval_adv_with files_small RRet RRet)) = Hang SLoad /\
-  entry_model unq_go (ELoad false "main" all_on (mkLoadAdv (TopRet stmts1) files_small (CRet keys5 code2) RRet 0)) = Hang SLoad /\
-  (* ... and what c03_hang says about the last one *)
-  (SLoad = SRun \/ (SLoad = SLoad /\ exists nilfs topPkg top fb, load_imports_model unq_go nilfs topPkg top fb = SHang)).
+  entry_model unq_go (ELoad false "main" all_on (mkLoadAdv (TopRet stmts1) files_small (CRet keys5 code2) RRet 0)) = Hang SLoad.
+  (* what c03_hang says about them: nv_c03_hang_tied below *)
 Proof.
-  assert (E : entry_model unq_go (EEval false all_on (eval_adv_with files_small RRet RRet)) = Hang SLoad)
-    by (vm_compute; reflexivity).
-  repeat (split; [vm_compute; reflexivity|]). exact (c03_hang unq_go _ _ E).
+  repeat (split; [vm_compute; reflexivity|]). vm_compute; reflexivity.
 Qed.
 
 (* a nil file system, or a source without imports, never hangs in the loader whatever the budget is *)
@@ -363,71 +360,49 @@ Proof.
   rewrite E. reflexivity.
 Qed.
 
-(* FINDING (see the report): the existential in the second disjunct of c03_hang is not tied to the entry e.
-   For every unq that accepts at least one string it is a closed true fact, so the disjunct says s = SLoad. *)
-Lemma problem_c03_hang : forall unq x, unq x = true ->
-  (exists nilfs topPkg top fb, load_imports_model unq nilfs topPkg top fb = SHang) /\
-  forall s, (s = SRun \/ (s = SLoad /\ exists nilfs topPkg top fb, load_imports_model unq nilfs topPkg top fb = SHang))
-            <-> (s = SRun \/ s = SLoad).
+(* HISTORY: the first statement of c03_hang had, as second disjunct, `s = SLoad /\ exists nilfs topPkg top fb,
+   load_imports_model unq nilfs topPkg top fb = SHang` -- an existential not tied to the entry e, and a closed
+   true fact for every unq that accepts one string (remark_c03_loader_can_hang), so that the conclusion was
+   `s = SRun \/ s = SLoad`.  c03_hang now is the restatement the audit suggested: both disjuncts name the
+   components of THIS entry.  What is kept here: *)
+
+(* (i) the loader model can hang for every such unq (budget 0): the old existential carried no information *)
+Lemma remark_c03_loader_can_hang : forall unq x, unq x = true ->
+  exists nilfs topPkg top fb, load_imports_model unq nilfs topPkg top fb = SHang.
 Proof.
   intros unq x Hx.
-  assert (Hex : exists nilfs topPkg top fb, load_imports_model unq nilfs topPkg top fb = SHang).
-  { exists false, "", (TNode "" "_" [imp "a" x]), (FRet (fun _ => None) (fun _ => []) 0).
-    unfold load_imports_model. cbn [kids_of imp top_imports odd_paths String.eqb Ascii.eqb Bool.eqb].
-    rewrite Hx. reflexivity. }
-  split; [exact Hex|]. intros s. split; [tauto|]. intros [H|H]; [left; exact H|right; split; [exact H|exact Hex]].
+  exists false, "", (TNode "" "_" [imp "a" x]), (FRet (fun _ => None) (fun _ => []) 0).
+  unfold load_imports_model. cbn [kids_of imp top_imports odd_paths String.eqb Ascii.eqb Bool.eqb].
+  rewrite Hx. reflexivity.
 Qed.
 
-(* ... and "s is SRun or SLoad" itself holds by the TYPES of the adversary: the behaviours of the scanner, the
-   parser and the compiler have no constructor for "does not return" *)
-Lemma problem_c03_hang_by_construction :
+(* (ii) "s is SRun or SLoad" holds by the TYPES of the adversary: the behaviours of the scanner, the parser
+   and the compiler have no constructor for "does not return" (said in the comment of c03_hang) *)
+Lemma remark_c03_hang_by_construction :
   (forall b, tokenize_model b <> SHang) /\ (forall l b, parse_model l b <> SHang) /\ (forall b, compile_model b <> SHang).
 Proof.
   split; [intros []; discriminate|]. split; [intros [|t l] []; discriminate|intros []; discriminate].
 Qed.
 
-(* suggested restatement of c03_hang, PROVED: both disjuncts tied to the entry e *)
-Lemma suggested_c03_hang : forall unq e s, entry_model unq e = Hang s ->
-  (s = SRun /\ match e with
-               | EEval _ _ a => ea_rimp a = RHang \/ ea_run a = RHang
-               | ELoad _ _ _ a => la_run a = RHang
-               | ECall _ b | EFunc _ b => b = FnHang
-               end) \/
-  (s = SLoad /\ match e with
-     | EEval n _ a => exists toks tree, tokenize_model (ea_scan a) = SOk toks /\ parse_model toks (ea_parse a) = SOk tree /\
-                        load_imports_model unq n "" tree (ea_files a) = SHang
-     | ELoad n p _ a => exists nodes, la_top a = TopRet nodes /\
-                        load_imports_model unq n p (TNode "_" "_" nodes) (la_files a) = SHang
-     | _ => False
-     end).
+(* (iii) the restated c03_hang applied to the seven hanging entries of nv_c03_hang: each disjunct occurs, and the
+   second one now names the entry's own tokens / tree / files *)
+Lemma nv_c03_hang_tied :
+  (let e := EEval false all_on (eval_adv_with files1 RHang RRet) in
+   ea_rimp (eval_adv_with files1 RHang RRet) = RHang \/ ea_run (eval_adv_with files1 RHang RRet) = RHang) /\
+  (exists toks tree, tokenize_model (ea_scan (eval_adv_with files_small RRet RRet)) = SOk toks /\
+     parse_model toks (ea_parse (eval_adv_with files_small RRet RRet)) = SOk tree /\
+     load_imports_model unq_go false "" tree (ea_files (eval_adv_with files_small RRet RRet)) = SHang) /\
+  (exists nodes, TopRet stmts1 = TopRet nodes /\ load_imports_model unq_go false "main" (TNode "_" "_" nodes) files_small = SHang).
 Proof.
-  intros unq [n o a|n p o a|x b|x b] s H; cbn [entry_model] in H.
-  - unfold eval_model in H.
-    apply bind_hang in H as [[E _]|(tokens & Et & H)]; [destruct (ea_scan a); discriminate|].
-    apply bind_hang in H as [[E _]|(tree & Ep & H)]; [destruct tokens; cbn in E; [discriminate|destruct (ea_parse a); discriminate]|].
-    apply bind_hang in H as [[E ->]|(pkgs & _ & H)]; [right; split; [reflexivity|eauto]|].
-    destruct (split_last pkgs) as [[imps top]|]; [|discriminate].
-    apply bind_hang in H as [[E _]|(kc0 & _ & H)]; [destruct (ea_cimp a); discriminate|].
-    apply bind_hang in H as [[E ->]|(u & _ & H)]; [left; split; [reflexivity|left; apply run_hang; exact E]|].
-    destruct (negb (tree_dump_ok (tree_dump o) [top])); [discriminate|].
-    apply bind_hang in H as [[E _]|(kc & _ & H)]; [destruct (ea_comp a); discriminate|].
-    destruct (negb (code_dump_ok (code_dump o) (fst kc) (snd kc))); [discriminate|].
-    apply bind_hang in H as [[E ->]|(u' & _ & H)]; [left; split; [reflexivity|right; apply run_hang; exact E]|discriminate].
-  - unfold load_model in H. destruct (la_top a) as [nodes| |] eqn:Et; try discriminate.
-    apply bind_hang in H as [[E ->]|(pkgs & _ & H)]; [right; split; [reflexivity|eauto]|].
-    destruct (negb (tree_dump_ok (tree_dump o) pkgs)); [discriminate|].
-    apply bind_hang in H as [[E _]|(kc & _ & H)]; [destruct (la_comp a); discriminate|].
-    destruct (negb (code_dump_ok (code_dump o) (fst kc) (snd kc))); [discriminate|].
-    apply bind_hang in H as [[E ->]|(u' & _ & H)]; [left; split; [reflexivity|apply run_hang; exact E]|].
-    destruct (la_rets a); discriminate.
-  - left. unfold call_model, func_model in H. destruct b as [len keys|st|]; cbn in H.
-    + destruct ((0 <=? x) && (x <=? len))%Z; [discriminate|]. destruct (bt_err_ok _ _ _ _); discriminate.
-    + destruct (bt_err_ok _ _ _ _); discriminate.
-    + inversion H; split; reflexivity.
-  - left. unfold func_model in H. destruct b as [len keys|st|]; cbn in H.
-    + destruct ((0 <=? x) && (x <=? len))%Z; [discriminate|]. destruct (bt_err_ok _ _ _ _); discriminate.
-    + destruct (bt_err_ok _ _ _ _); discriminate.
-    + inversion H; split; reflexivity.
+  split; [|split].
+  - cbv zeta.
+    assert (E : entry_model unq_go (EEval false all_on (eval_adv_with files1 RHang RRet)) = Hang SRun) by (vm_compute; reflexivity).
+    destruct (c03_hang _ _ _ E) as [[_ H]|[H _]]; [exact H|discriminate].
+  - assert (E : entry_model unq_go (EEval false all_on (eval_adv_with files_small RRet RRet)) = Hang SLoad) by (vm_compute; reflexivity).
+    destruct (c03_hang _ _ _ E) as [[H _]|[_ H]]; [discriminate|exact H].
+  - assert (E : entry_model unq_go (ELoad false "main" all_on (mkLoadAdv (TopRet stmts1) files_small (CRet keys5 code2) RRet 0)) = Hang SLoad)
+      by (vm_compute; reflexivity).
+    destruct (c03_hang _ _ _ E) as [[H _]|[_ H]]; [discriminate|exact H].
 Qed.
 
 (* ==== the proved invariants ============================================================================== *)
@@ -686,7 +661,8 @@ Definition oracle_of (l : list bool) (dflt : bool) (k : nat) : bool := nth k l d
 Lemma nv_c03_parse_progress_partial :
   (exists out k', Exec goat_table 3 (oracle_of [true; true; false; false] false) (Call F_parse) 0 0 out k' /\ out = ONorm 2) /\
   (exists out k', Exec goat_table 3 (fun _ => true) (Call F_parse) 0 0 out k' /\ out = OPanic) /\
-  (exists out k', Exec goat_table 1000 (fun k => Nat.even (k / 3)) (Call F_parse) 0 7 out k').
+  (exists out k', Exec goat_table 1000 (fun k => Nat.even (k / 3)) (Call F_parse) 0 7 out k' /\
+     (forall c', out = ONorm c' -> (0 + 1 <= c' <= 1000)%Z)).
 Proof.
   split; [eexists; eexists; split; [exec_run|reflexivity]|].
   split; [eexists; eexists; split; [exec_run|reflexivity]|].
@@ -751,4 +727,4 @@ Print Assumptions nv_c03_contain_func.
 Print Assumptions nv_c03_hang_load_infinite.
 Print Assumptions nv_c03_terminates_load.
 Print Assumptions nv_c03_parse_progress_general.
-Print Assumptions problem_c03_hang.
+Print Assumptions nv_c03_hang_tied.
